@@ -56,10 +56,24 @@ JanetSignal continue_stub(JanetFiber *fiber, Janet in, Janet *out, JanetSignal s
   REACH("a task is run");
   return (JanetSignal)(nd_uint() % 14);
 }
+/* C20: before the loop goes to sleep it drops every timer that can no longer fire - a deadline whose guarded fiber has finished,
+ * a timeout whose wait is over - so it never waits for one (a finished program returns at once instead of sleeping out a stale
+ * deadline). janet_loop1_impl(has_timeout, when) is the sleep. */
+void loop1_impl_stub(int has_timeout, JanetTimestamp timeout) {
+  if (has_timeout) {
+    __CPROVER_assert(g_have_to && timeout == g_to.when, "C20 loop wait: the loop sleeps until the next pending timer");
+    __CPROVER_assert(g_to.curr_fiber != 0 ? g_can_resume[g_to.curr_fiber - g_f] : g_to.fiber->sched_id == g_to.sched_id,
+                     "C20 loop wait: the timer waited for can still fire (stale deadlines and timeouts are dropped first, not slept out)");
+    REACH("the loop sleeps until a live timer");
+  } else REACH("the loop sleeps without a timer");
+}
 void h_loop1(void) {
   for (int i = 0; i < 3; i++) { g_f[i].sched_id = nd_u32(); g_f[i].gc.flags = nd_i32(); g_f[i].supervisor_channel = 0; g_can_resume[i] = nd_int() & 1; }
   g_now = nd_i64(); g_timer_budget = 2; g_task_budget = 2; g_have_to = 0; g_have_cur = 0;
   janet_vm.spawn.head = 0; janet_vm.spawn.tail = nd_int() & 1; janet_vm.auto_suspend = 0; janet_vm.tq_count = 0; janet_vm.listener_count = 0;
+#ifdef LOOP1_WAIT
+  janet_vm.tq_count = nd_size(); janet_vm.listener_count = nd_int() & 1;
+#endif
   janet_loop1();
 }
 /* ---- timeouts record the current generation ---- */
